@@ -545,6 +545,13 @@ def bounded_load(s):
                 fp.write(render_eig(qs, modes))
             evals += 1
             try:
+                if t % 4 == 0:
+                    # history: the same path held other values a moment ago (same layout) and was loaded then: this load must return what the file holds NOW
+                    with open(p, "w") as fp:
+                        fp.write(render_eig(qs[::-1] * 0.5, [[(thz + 1.0, cm1 + 33.35641, vec * 0.5) for (thz, cm1, vec) in ms] for ms in modes]))
+                    el.evec_load(p, nq, npm)
+                    with open(p, "w") as fp:
+                        fp.write(render_eig(qs, modes))
                 got = el.evec_load(p, nq, npm)
             except Exception as e:
                 fails.append({"witness_id": "load:%d" % t, "input": {"nq": nq, "modes": npm}, "observed": "raises %r" % (e,), "expected": "parsed file"})
